@@ -122,6 +122,9 @@ def impl_init():
                 pkt = pk
             except PacketError:
                 pass
+        elif (c["ts"] + c["ms"] + c["flags"]) % 5 == 2:
+            # the same packet as sniffed inside a link-layer frame (802.1Q tag, plain Ethernet, Linux cooked capture)
+            pkt = U.scapy_from_spec(dict(spec_of(c["flags"], c["ts"], c["has_ts"], c["frag"], pre=c["ts"] + c["ms"]), link=["dot1q", "ether", "sll", "dot1q"][(c["ts"] + c["ms"]) % 4]))
         elif (c["ts"] + c["ms"] + c["flags"]) % 5 == 1:
             # a frame as captured (every layer dissected from bytes) whose TCP options the caller has REPLACED since, deleting the automatic fields so
             # that they are recomputed: the packet says what its fields say now
